@@ -107,6 +107,7 @@ def check(ctx):
     check_runner_up_filter(ctx)
     check_width(ctx)
     check_csv(ctx, produced)
+    check_hdf5_results_condition(ctx)
     from .C10 import check_node_identity
     check_node_identity(ctx, ('utils.output_utils', 'taxonomy.taxonomy_tree'), floor=1)
 
@@ -327,10 +328,14 @@ def check_hdf5_codec(ctx, produced):
             continue
         want = {d for d, ks in ds_keys.items() if k in ks}
         got = key_ds[k] - neutral
-        if not want and not got:
+        if not want and not got and not key_ds[k]:
             continue
         n += 1
-        # directly_assigned is written per level from the first record
+        # a key restored only from datasets the writer fills from no
+        # record key at all (recomputed, constant) is not reproduced
+        # either: want is empty, got is what the reader uses
+        if not want and not got:
+            got = set(key_ds[k]) - {'metadata', 'cell_id'}
         ok = (want == got)
         ctx.ob(rule, f'hdf5_to_blob:{k}', rdr.loc(key_sites[k]), ok,
                f"record key '{k}' is restored from {sorted(got)}, the "
@@ -1144,3 +1149,115 @@ def _inside_loop_of(test_stmt, st):
     if p is None:
         return False
     return any(x is test_stmt for x in ast.walk(p))
+
+
+def _membership_keys(fi, param):
+    """string constants whose membership in the parameter is tested
+    (directly, or through a loop variable over a display of constants)"""
+    out = dict()
+    rd = rd_of(fi)
+    for c in ast.walk(fi.node):
+        if not (isinstance(c, ast.Compare) and len(c.ops) == 1
+                and isinstance(c.ops[0], (ast.In, ast.NotIn))
+                and isinstance(c.comparators[0], ast.Name)
+                and c.comparators[0].id == param):
+            continue
+        lhs = c.left
+        if isinstance(lhs, ast.Constant) and isinstance(lhs.value, str):
+            out.setdefault(lhs.value, c)
+        elif isinstance(lhs, ast.Name):
+            for d in rd.defs:
+                if d.name != lhs.id:
+                    continue
+                v = getattr(d, 'value', None)
+                if d.kind == 'for' and isinstance(v, (ast.Tuple, ast.List,
+                                                      ast.Set)):
+                    for e in v.elts:
+                        if isinstance(e, ast.Constant) and isinstance(
+                                e.value, str):
+                            out.setdefault(e.value, c)
+                elif d.kind == 'assign' and isinstance(
+                        v, ast.Constant) and isinstance(v.value, str):
+                    out.setdefault(v.value, c)
+    return out
+
+
+def check_hdf5_results_condition(ctx, rule='R-AGREE/hdf5-results-condition'):
+    """blob_to_hdf5 writes the per-cell results only when the blob holds
+    the keys it tests for; run_mapping hands it the same blob it has just
+    written as JSON.  For the two files to hold the same results, every
+    key whose absence suppresses the HDF5 results must be one the mapping
+    step stores in the blob and that run_mapping does not remove from it
+    on any path before the HDF5 writer is called."""
+    db = ctx.db
+    w = db.fn('utils.output_utils:blob_to_hdf5')
+    ctx.touch(w)
+    need = _membership_keys(w, 'output_blob')
+    if not need:
+        raise AnalysisError('blob_to_hdf5: no membership test on the blob '
+                            'found')
+    inner = db.fn('cli.from_specified_markers:_run_mapping')
+    outer = db.fn('cli.from_specified_markers:run_mapping')
+    ctx.touch(inner)
+    ctx.touch(outer)
+    stored = set()
+    for fi in (inner, outer):
+        for st in ast.walk(fi.node):
+            if isinstance(st, ast.Assign) and isinstance(
+                    st.targets[0], ast.Subscript) and isinstance(
+                        st.targets[0].value, ast.Name) \
+                    and st.targets[0].value.id == 'output' \
+                    and isinstance(st.targets[0].slice, ast.Constant):
+                stored.add(st.targets[0].slice.value)
+    # removals in run_mapping from which the HDF5 writer is reachable
+    cfg = cfg_of(outer)
+    rd = rd_of(outer)
+    calls = []
+    for node in cfg.nodes:
+        if node.id not in rd.live:
+            continue
+        for c in cfg.calls_in(node):
+            t = resolve_callee(db, outer, c)
+            if isinstance(t, FunctionInfo) and t.qual == w.qual:
+                m, _ = bind_args(t, c)
+                a = m.get('output_blob')
+                if isinstance(a, ast.Name):
+                    calls.append((node, a.id))
+    if not calls:
+        raise AnalysisError('run_mapping: call of blob_to_hdf5 not found')
+    removed = dict()
+    for node in cfg.nodes:
+        if node.id not in rd.live or node.ast is None:
+            continue
+        for (cn, blob) in calls:
+            for x in ast.walk(node.ast) if node.kind in (
+                    'stmt', 'return') else []:
+                k = None
+                if isinstance(x, ast.Call) and isinstance(
+                        x.func, ast.Attribute) and x.func.attr == 'pop' \
+                        and isinstance(x.func.value, ast.Name) \
+                        and x.func.value.id == blob and x.args \
+                        and isinstance(x.args[0], ast.Constant):
+                    k = x.args[0].value
+                if isinstance(x, ast.Delete):
+                    for tg in x.targets:
+                        if isinstance(tg, ast.Subscript) and isinstance(
+                                tg.value, ast.Name) and tg.value.id == blob \
+                                and isinstance(tg.slice, ast.Constant):
+                            k = tg.slice.value
+                if k is not None and cfg.path(node.id, {cn.id}) is not None:
+                    removed.setdefault(k, node)
+    for k in sorted(need):
+        ok = k in stored and k not in removed
+        ctx.ob(rule, f'blob_to_hdf5:{k}', w.loc(need[k]), ok,
+               f"'{k}' is stored by the mapping step and still in the blob "
+               'when the HDF5 file is written' if ok else
+               f"blob_to_hdf5 writes the results only if '{k}' is in the "
+               'blob, but ' + (
+                   f"run_mapping removes it "
+                   f"(`{unparse(removed[k].ast)[:50]}`, "
+                   f"{outer.loc(removed[k].ast)}) before the HDF5 file is "
+                   'written' if k in removed else
+                   'no step of the mapping stores that key')
+               + ': the HDF5 output of a successful run carries no results '
+               'while the JSON output does')
